@@ -182,7 +182,9 @@ def prog(variant: int, k: int, nm: int, inh: bool, o1: int, i1: int, v1: int, o2
         else:
             rootnone = cur0 is None or cur is None
             _judge(deps, before, after, got, info, rootnone)
-            if deps2:
+            if deps2 and not boomed:
+                # (what happens to the remaining watchers of a dispatch during which one dependent method raised is not
+                #  fixed by the statement: the second method is only judged for steps in which the first one did not raise)
                 _judge(deps2, before2, reach(deps2), t.calls2 - calls20, dict(info, method='m2'), rootnone)
         # detached objects keep no watcher on the parent's behalf
         attached_mid = cur
